@@ -157,6 +157,35 @@ CLAIMED = {
          "texts up to 4 (6) characters; decorated variants: 2 per sampled input.",
          "TLA+ tokenisation definition + TLC trace validation with a metamorphic reference run",
          "DESIGN.md §6 C17"),
+ "C09": ("model_checking",
+         "Gen_Ebnf.tla enumerates EBNF grammars as bracketed token sequences (exhaustive single production core + random two-production "
+         "walks); parol's front end canonicalises the PAR text (LL and LALR flavours, also with non-terminals renamed to generated helper "
+         "names); Xform.tla checks each recorded pair: every user non-terminal has the same bounded language as its EBNF definition "
+         "(LangE of Ebnf.tla), result is plain BNF.",
+         "language equality up to length 4; right-hand sides up to 5 (6) tokens exhaustive, 8 tokens sampled.",
+         "TLA+ EBNF semantics; TLC trace validation of canonicalisation input/output pairs",
+         "DESIGN.md §6 C09"),
+ "C18": ("model_checking",
+         "Gen_Term.tla enumerates terminal occurrence lists (texts x quoting styles x lookahead) with the token number each occurrence must "
+         "get; the harness compares the numbers used by the production tables (source, export model), the scanner entries (source, export "
+         "model), the size of the name table, and runs the sentence.",
+         "lists of up to 2 (3) occurrences exhaustive, 4 sampled; automata/LR/skip/transition numbering is tied by C21.",
+         "TLC-enumerated occurrence lists with expected numbering replayed on every generated part",
+         "DESIGN.md §6 C18"),
+ "C21": ("model_checking",
+         "Per accepted grammar (grammar universe LL+LR, scanner catalogue, all repository .par files) three views - tables read back from "
+         "the generated source, export model, analysis results - are recorded; Tables.tla requires field-wise equality and all indices in range.",
+         "the views are produced by projections in harness/src/checks/tables.rs; the unminimised analysis automata are compared by k/prod0 "
+         "only (their language is C07's subject).",
+         "TLC trace validation of three-way table agreement and index ranges",
+         "DESIGN.md §6 C21"),
+ "C33": ("model_checking",
+         "A catalogue of clash-provoking grammars plus the C21 inputs; per accepted grammar the names of TERMINAL_NAMES, NON_TERMINALS and of "
+         "the generated user-trait source (types, members per type, methods per trait; read with syn) are validated by Names.tla: valid "
+         "Rust identifiers, required distinctness.",
+         "identifier validity is ASCII (what parol emits); keywords only as raw identifiers; known finding F10.",
+         "TLC trace validation of generated identifier tables against a TLA+ identifier/distinctness specification",
+         "DESIGN.md §6 C33"),
 }
 
 NOT_YET = "check not built yet in this round (see DESIGN.md §11.2 build order); will be claimed once its quick check passes on the unchanged tree"
